@@ -143,6 +143,9 @@ impl Trace {
 	pub fn begin_case(&mut self, c: &str) {
 		self.case_ops.clear();
 		writeln!(self.out, "#CASE {}", c).unwrap();
+		// on disk before the case runs: when the implementation hangs inside it, the check finds the header of the
+		// unfinished case in the partial trace and reports it as the failing input
+		let _ = self.out.flush();
 	}
 	pub fn end_case(&mut self, nontrivial: bool) {
 		writeln!(self.out, "#CASEEND nontrivial={}", if nontrivial { 1 } else { 0 }).unwrap();
